@@ -48,7 +48,7 @@ PROPS = {
     "C05": {
         "theories": [CAL_THEORY, "format strings: concrete structure, symbolic decimal fields; regular expressions by derivatives over the real patterns"],
         "lemmas": [],
-        "validations": ["calendar", "pendulum"],
+        "validations": ["calendar", "pendulum", "regex"],
         "assumptions": [
             "years (calendar and ISO) 1000..9999: four digits, as the statement says",
             "pendulum.parse(text, exact=True) on the five ISO shapes: the date named, ParserError when it does not exist (assumed, validated natively)",
